@@ -192,7 +192,8 @@ func ZZ_C17Off(shape int) {
 	off := verifhook.Uint64("offset")
 	ps := verifhook.Uint64("pageSize")
 	verifhook.Assume(ps >= 1)
-	verifhook.Assume(ps <= MaxPageSize)
+	// the v1 API hands page sizes up to 1000 to the paginator (v1.MaxPageSize)
+	verifhook.Assume(ps <= 1000)
 	// a walk from the first page only reaches offsets below the collection size; bun keeps
 	// OFFSET as an int32, so offsets from 2^31 on (reachable only in a collection of 2^31
 	// rows) are outside the claim
@@ -258,5 +259,47 @@ func ZZ_C17Tok(shape int) {
 	}
 	verifhook.Assert(verifhook.StrEq(back.Options.Tag, tag), "C17 the decoded cursor carries another filter value")
 	verifhook.Assert(back.PageSize == q.PageSize && back.PaginationID != nil && back.PaginationID.Cmp(q.PaginationID) == 0, "C17 the decoded cursor stands for another page")
+	verifhook.Canary()
+}
+
+func ZZ_C17OffWalkN() int { return 2 }
+
+func ZZ_C17OffWalkDesc(i int) string {
+	return fmt.Sprintf("offset pagination over %d rows, page size arbitrary in 90..1000 (the v1 API allows up to 1000): full walk", []int{105, 230}[i])
+}
+
+// ZZ_C17OffWalk: following next over an offset-paginated list larger than one hundred
+// rows yields every row exactly once whatever the page size, including page sizes above
+// the v2 maximum.
+func ZZ_C17OffWalk(shape int) {
+	n := []int{105, 230}[shape]
+	ids := make([]*big.Int, n)
+	for i := range ids {
+		ids[i] = big.NewInt(int64(i))
+	}
+	ps := verifhook.Uint64("pageSize")
+	verifhook.Assume(ps >= 90)
+	verifhook.Assume(ps <= 1000)
+	q := OffsetPaginatedQuery[zzFilters]{PageSize: ps, Order: OrderAsc, Options: zzFilters{Tag: "t"}}
+	seen := 0
+	for step := 0; step < 5; step++ {
+		c, err := UsingOffset[zzFilters, zzRow](context.Background(), zzTable(ids).OrderExpr("id ASC"), q)
+		verifhook.Assert(err == nil, "C17 offset page query fails")
+		if err != nil {
+			return
+		}
+		for k, r := range c.Data {
+			verifhook.Assert((*big.Int)(r.ID).Cmp(big.NewInt(int64(seen+k))) == 0, "C17 an offset walk skips or repeats items")
+		}
+		seen += len(c.Data)
+		if !c.HasMore {
+			break
+		}
+		nq := &OffsetPaginatedQuery[zzFilters]{}
+		verifhook.Assert(UnmarshalCursor(c.Next, nq) == nil, "C17 the next cursor handed out is not accepted back")
+		q = *nq
+	}
+	verifhook.Reach("walked")
+	verifhook.Assert(seen == n, "C17 following next over an offset list does not yield every item exactly once")
 	verifhook.Canary()
 }
